@@ -73,41 +73,60 @@ def run(rep, facts):
     if not okc:
         bad.append("the split closure is not |b| b.split_at(total_len)")
     # head_len = data.len() - cur.len() with `cur` the cursor both reads advanced; no unchecked + or * on decoded lengths
-    r0 = ir.Resolver(b, opaque_mut_borrowed=True)
-    cursors = set()
-    nreads = 0
-    for bi, blk in enumerate(b.blocks):
-        t = blk["t"]
-        cal = F.norm(t["func"].get("path", "")) if t["k"] == "call" else None
-        is_read = cal == READ
-        if cal and not is_read and facts.is_new_helper(cal) and t["args"]:
-            # a reader helper introduced later: reads one prefix through the cursor it is given (its first parameter)
-            for hb in facts.by_npath.get(cal, []):
-                hr = ir.Resolver(hb, opaque_mut_borrowed=True)
-                hreads = [(hbi, ht) for hbi, hblk in enumerate(hb.blocks) for ht in [hblk["t"]]
-                          if ht["k"] == "call" and F.norm(ht["func"].get("path", "")) == READ]
-                if len(hreads) == 1 and ir.peel(hr.operand(hreads[0][1]["args"][0], (hreads[0][0], -1)))[0] == 'param':
-                    is_read = True
-        if is_read:
-            nreads += 1
-            e = ir.peel(r0.operand(t["args"][0], (bi, -1)))
-            if e[0] == 'local':
-                cursors.add(e[1])
-    head_ok = False
-    arith = []
-    for bi, blk in enumerate(b.blocks):
-        for si, st in enumerate(blk["st"]):
-            if st["k"] != "assign" or st["rv"]["k"] != "bin":
+    def analyse_reads(body, is_data):
+        r0 = ir.Resolver(body, opaque_mut_borrowed=True)
+        cursors = set()
+        nreads = 0
+        for bi, blk in enumerate(body.blocks):
+            t = blk["t"]
+            cal = F.norm(t["func"].get("path", "")) if t["k"] == "call" else None
+            is_read = cal == READ
+            if cal and not is_read and facts.is_new_helper(cal) and t["args"]:
+                # a reader helper introduced later: reads one prefix through the cursor it is given (its first parameter)
+                for hb in facts.by_npath.get(cal, []):
+                    hr = ir.Resolver(hb, opaque_mut_borrowed=True)
+                    hreads = [(hbi, ht) for hbi, hblk in enumerate(hb.blocks) for ht in [hblk["t"]]
+                              if ht["k"] == "call" and F.norm(ht["func"].get("path", "")) == READ]
+                    if len(hreads) == 1 and ir.peel(hr.operand(hreads[0][1]["args"][0], (hreads[0][0], -1)))[0] == 'param':
+                        is_read = True
+            if is_read:
+                nreads += 1
+                e = ir.peel(r0.operand(t["args"][0], (bi, -1)))
+                if e[0] == 'local':
+                    cursors.add(e[1])
+        head_ok = False
+        arith = []
+        for bi, blk in enumerate(body.blocks):
+            for si, st in enumerate(blk["st"]):
+                if st["k"] != "assign" or st["rv"]["k"] != "bin":
+                    continue
+                op = st["rv"]["op"]
+                if op.startswith("Sub"):
+                    a = ir.peel(r0.operand(st["rv"]["a"], (bi, si)))
+                    c = ir.peel(r0.operand(st["rv"]["b"], (bi, si)))
+                    if a[0] == 'call' and a[1].endswith("::len") and is_data(a) and \
+                            c[0] == 'call' and c[1].endswith("::len") and ir.peel(c[2][0])[0] == 'local' and ir.peel(c[2][0])[1] in cursors:
+                        head_ok = True
+                if op.startswith("Add") or op.startswith("Mul") or op.startswith("Shl"):
+                    arith.append("%s@%d" % (op, st["sp"]["l"]))
+        return nreads, cursors, head_ok, arith
+
+    nreads, cursors, head_ok, arith = analyse_reads(b, lambda a: any(y[0] == 'field' and y[2] == 'data' for y in ir.walk(a)))
+    if nreads == 0:
+        # the prefixes are decoded by a helper introduced later that receives (a view of) self.data: the same obligations there
+        rb = ir.Resolver(b)
+        for bi, blk in enumerate(b.blocks):
+            t = blk["t"]
+            cal = F.norm(t["func"].get("path", "")) if t["k"] == "call" else None
+            if not cal or not facts.is_new_helper(cal):
                 continue
-            op = st["rv"]["op"]
-            if op.startswith("Sub"):
-                a = ir.peel(r0.operand(st["rv"]["a"], (bi, si)))
-                c = ir.peel(r0.operand(st["rv"]["b"], (bi, si)))
-                if a[0] == 'call' and a[1].endswith("::len") and any(y[0] == 'field' and y[2] == 'data' for y in ir.walk(a)) and \
-                        c[0] == 'call' and c[1].endswith("::len") and ir.peel(c[2][0])[0] == 'local' and ir.peel(c[2][0])[1] in cursors:
-                    head_ok = True
-            if op.startswith("Add") or op.startswith("Mul") or op.startswith("Shl"):
-                arith.append("%s@%d" % (op, st["sp"]["l"]))
+            for ai, a in enumerate(t["args"]):
+                ae = rb.operand(a, (bi, -1))
+                if any(y[0] == 'field' and y[2] == 'data' for y in ir.walk(ae)):
+                    for hb in facts.by_npath.get(cal, []):
+                        n2, c2, h2, a2 = analyse_reads(hb, lambda x, _i=ai + 1: any(y[0] == 'param' and y[1] == _i for y in ir.walk(x)))
+                        if n2:
+                            nreads, cursors, head_ok, arith = n2, c2, h2, arith + a2
     if nreads != 2 or len(cursors) != 1:
         bad.append("the two length prefixes are not read through one advancing cursor (%d reads, %d cursors)" % (nreads, len(cursors)))
     if not head_ok:
